@@ -1657,6 +1657,11 @@ package log
 // ---- C02: one entry of a logger's tag list (the body of the range-over-func loop in Refresh) ---------------------
 // Captured variables, in order: the loop's jump state (0 = ready), err, name, Refresh's result, tags.
 //@ spec fun malformedWildcard(t string) bool = str_contains(t, "*") && !has_suffix(t, "_*")
+// an entry as Refresh records it: non-blank and, if it has a '*', of the form '..._*'.  Kept behind a function
+// symbol (unfolded by the axiom only where an entry is named) so that the quantified invariants of Refresh
+// do not carry the string predicates around
+//@ spec fun okEntry(t string) bool
+//@ axiom[when okEntry] forall t string :: { okEntry(t) } okEntry(t) == (t != "" && !malformedWildcard(t))
 //@ func Refresh/rangefunc1
 //@   params item
 //@   requires freevar(0) == 0
@@ -1785,12 +1790,12 @@ package log
 //@   loop 2 invariant[C02:earlier-loggers-own-their-tags] forall i, j int :: { witi(i), witi(j) } witi(i) && witi(j) && 0 <= i && i < $k && loggers[i] != "root" && 0 <= j && j < nPieces(tagsOf(cLoggers[loggers[i]])) && tagPiece(tagsOf(cLoggers[loggers[i]]), j) != "" ==> has(cTags, tagPiece(tagsOf(cLoggers[loggers[i]]), j)) && cTags[tagPiece(tagsOf(cLoggers[loggers[i]]), j)] == cLoggers[loggers[i]]
 //@   loop 2 invariant[C02:earlier-loggers-list-a-tag] forall i int :: { witi(i) } witi(i) && 0 <= i && i < $k && loggers[i] != "root" ==> listsATag(tagsOf(cLoggers[loggers[i]]))
 //@   loop 2 invariant[C02:root-without-tags] (forall i int :: { witi(i) } witi(i) && 0 <= i && i < $k && loggers[i] == "root" ==> tagsOf(cLoggers["root"]) == "") && (isold(ifval(cRoot)) || tagsOf(cRoot) == "")
-//@   loop 2 invariant[C02:entries-well-formed] forall t string :: { wit(t) } wit(t) && has(cTags, t) ==> t != "" && !malformedWildcard(t)
+//@   loop 2 invariant[C02:entries-well-formed] forall t string :: { wit(t) } wit(t) && has(cTags, t) ==> okEntry(t)
 //@   rangefunc 1 invariant[C02:pieces] witi(len(tags)) && witi($k) && 0 <= $k && $k <= $n && $n == nPieces(base.Tags) && name != "root" && base.Tags == tagsOf(logger)
 //@   rangefunc 1 invariant[C02:a-recorded-entry-has-a-source] len(tags) > 0 ==> (exists j int :: { split_piece(base.Tags, ',', j) } 0 <= j && j < $k && tagPiece(base.Tags, j) != "")
 //@   rangefunc 1 invariant[C02:count-so-far] len(tags) == nbp(base.Tags, $k)
 //@   rangefunc 1 invariant[C02:listed-so-far] (forall j int :: { nbp(base.Tags, j) } { tagPiece(base.Tags, j) } 0 <= j && j < $k && tagPiece(base.Tags, j) != "" ==> 0 <= nbp(base.Tags, j) && nbp(base.Tags, j) < len(tags) && tags[nbp(base.Tags, j)] == tagPiece(base.Tags, j))
-//@   rangefunc 1 invariant[C02:recorded-so-far] forall m int :: { witi(m) } witi(m) && 0 <= m && m < len(tags) ==> tags[m] != "" && !malformedWildcard(tags[m])
+//@   rangefunc 1 invariant[C02:recorded-so-far] forall m int :: { witi(m) } witi(m) && 0 <= m && m < len(tags) ==> okEntry(tags[m])
 //@   rangefunc 1 invariant[C02,C12,C15,C16:iterating] $jump == 0 && (sref(tags) == 0 || !$existed(sref(tags)))
 //@   loop 3 writes_own_objects
 //@   loop 3 invariant[C02,C12,C15,C16:range] 0 <= $k && $k <= len(tags) && witi($k) && wit(name)
@@ -1798,7 +1803,7 @@ package log
 //@   loop 3 invariant[C02,C12,C15,C16:this-logger] !isold(ifval(logger))
 //@   loop 3 invariant[C02:registered-so-far] forall m int :: { slot(tags, m) } 0 <= m && m < $k ==> has(cTags, tags[m]) && cTags[tags[m]] == logger
 //@   loop 3 invariant[C02:earlier-loggers-own-their-tags] forall i, j int :: { witi(i), witi(j) } witi(i) && witi(j) && 0 <= i && i < $k2 && loggers[i] != "root" && 0 <= j && j < nPieces(tagsOf(cLoggers[loggers[i]])) && tagPiece(tagsOf(cLoggers[loggers[i]]), j) != "" ==> has(cTags, tagPiece(tagsOf(cLoggers[loggers[i]]), j)) && cTags[tagPiece(tagsOf(cLoggers[loggers[i]]), j)] == cLoggers[loggers[i]]
-//@   loop 3 invariant[C02:entries-well-formed] forall t string :: { wit(t) } wit(t) && has(cTags, t) ==> t != "" && !malformedWildcard(t)
+//@   loop 3 invariant[C02:entries-well-formed] forall t string :: { wit(t) } wit(t) && has(cTags, t) ==> okEntry(t)
 //@   loop 3 invariant[C02,C12,C15,C16:loggers] cRoot != nil && (forall n string :: has(cLoggers, n) ==> cLoggers[n] != nil) && (forall n string :: has(cAppenders, n) ==> cAppenders[n] != nil) && has(cLoggers, "root") && cLoggers["root"] == cRoot && has(cLoggers, name) && cLoggers[name] == logger && logger != nil
 //@   loop 5 invariant[C02,C12,C15,C16:started-so-far] forall n string :: $visited[n] ==> startedL[cLoggers[n]] > old(startedL)[cLoggers[n]]
 //@   loop 5 invariant[C02,C12,C15,C16:never-unstarted] forall x Logger :: startedL[x] >= old(startedL)[x]
